@@ -17,12 +17,17 @@ Full strength, for the code after the repairs proposed for C02/C03 (`Variant`: `
   either no `check_valid="shallow"` task or task functions that do not observe the world
   (no `File(path)` stat in a body: shallow validity skips intermediate values by design);
 * `tableProg_bodyOk/_cfp/_worldFree`  the template programs the driver runs satisfy the hypotheses.
+Partial, `catch`'s private cache as implemented (histories without shallow tasks):
+* `full_validity_catch_partial`, `cached_eq_fresh_catch_partial`   the same conclusion under `CatchStill`: at the start
+                           of every execution every caught expression whose recovery is cached still raises its class
+                           under the current code - the stale recovery is the only way `catch`'s cache goes wrong.
 Refuted on the code as found (closed witnesses, the harness replays them on the real code):
 * `refuted_catch`          DESIGN F1, still the behaviour of /repo: known finding;
 * `refuted_simple_expr`    stale `File` under a lazy `+` (repaired by C02-simple-expression-validity.fix.diff);
 * `refuted_cse_twin`       shallow task over a CSE-served child (repaired by C03-subtree-tasks.fix.diff).
 -/
 import RedunModel.Lemmas.CacheHist
+import RedunModel.Lemmas.CacheHistCatch
 namespace RedunModel.C02
 open RedunModel.CacheHist
 
@@ -103,6 +108,86 @@ theorem cached_eq_fresh {V : Variant} {P : Prog} (hC : V.cseSubtreeFromDb = true
   have hD' := fresh_den hC hB hK hist[i] (hF.imp id fun hh => hh _ hm) (hR _ hm) hf
   rw [List.getElem?_eq_getElem hi', den_det hD hD']
 
+/-! ### `catch`'s private cache as implemented -/
+
+/-- at the start of every execution of the history, every caught expression whose *recovery* is cached still raises
+the caught class under the code current at that moment (i.e. no edit since has made it succeed or fail differently) -/
+def CatchStill (V : Variant) (P : Prog) : St → List RunIn → Prop
+  | _, [] => True
+  | st, ri :: rest =>
+    (∀ ck ce, (ck, ce) ∈ st.catches → ce ≠ ck.e → Den P ri.code ri.world ck.e (.err ck.cls)) ∧
+    (∀ st1 r u, runOne V P st ri = some (st1, r, u) → CatchStill V P st1 rest)
+
+theorem invC_empty (V P c w) : InvC V P c w {} := ⟨by simp, by simp, by simp⟩
+
+/-- **C02 with `catch` as implemented (`_partial`)**: for histories without shallow tasks, every execution returns the
+denotation under the current code provided `CatchStill` - the stale-recovery finding is the only way `catch`'s private
+cache can go wrong. -/
+theorem full_validity_catch_partial {V : Variant} {P : Prog} (hB : BodyOk V P) :
+    ∀ (hist : List RunIn), (∀ ri ∈ hist, ∀ n, ri.code.shallow n = false) →
+      ∀ {c0 : Code} {w0 : World} {st st' : St} {rs : List Res}, InvC V P c0 w0 st → CatchStill V P st hist →
+        runHist V P st hist = some (st', rs) →
+        rs.length = hist.length ∧
+        ∀ (i : Nat) (hi : i < hist.length) (hi' : i < rs.length),
+          Den P hist[i].code hist[i].world hist[i].root rs[i] := by
+  intro hist
+  induction hist with
+  | nil =>
+    intro _ c0 w0 st st' rs _ _ h
+    simp only [runHist, Option.some.injEq, Prod.mk.injEq] at h
+    obtain ⟨_, rfl⟩ := h
+    exact ⟨rfl, fun i hi => absurd hi (Nat.not_lt_zero i)⟩
+  | cons ri rest ih =>
+    intro hNS c0 w0 st st' rs hI hCS h
+    simp only [runHist] at h
+    split at h
+    · cases h
+    · next st1 r u h1 =>
+      split at h
+      · cases h
+      · next st2 rs2 h2 =>
+        simp only [Option.some.injEq, Prod.mk.injEq] at h
+        obtain ⟨_, rfl⟩ := h
+        have hI0 : InvC V P ri.code ri.world (st.newExec ri.errRec) := by
+          refine ⟨hI.evals, by simp [St.newExec], ?_⟩
+          intro ck ce hm
+          by_cases hce : ce = ck.e
+          · exact .inl hce
+          · rcases hI.catches ck ce hm with h' | ⟨h', _⟩
+            · exact absurd h' hce
+            · exact .inr ⟨h', hCS.1 ck ce hm hce⟩
+        obtain ⟨hI1, hD1⟩ := eval_soundC hB (hNS ri List.mem_cons_self) ri.fuel _ _ _ _ _ hI0 h1
+        obtain ⟨hlen, hall⟩ := ih (fun ri' hm => hNS ri' (List.mem_cons_of_mem _ hm)) hI1 (hCS.2 st1 r u h1) h2
+        refine ⟨by simp [hlen], ?_⟩
+        intro i hi hi'
+        cases i with
+        | zero => exact hD1
+        | succ j => exact hall j (by simpa using hi) (by simpa using hi')
+
+theorem fresh_den_catch {V : Variant} {P : Prog} (hB : BodyOk V P) (ri : RunIn) (hNS : ∀ n, ri.code.shallow n = false)
+    {fuel : Nat} {r : Res} (h : fresh V P ri fuel = some r) : Den P ri.code ri.world ri.root r := by
+  unfold fresh at h
+  cases he : eval V P ri.code ri.world fuel {} ri.root with
+  | none => simp [he] at h
+  | some x =>
+    obtain ⟨st', r', u⟩ := x
+    simp [he] at h
+    subst h
+    exact (eval_soundC hB hNS fuel _ _ _ _ _ (invC_empty V P ri.code ri.world) he).2
+
+/-- ... hence equal to the result on an empty backend -/
+theorem cached_eq_fresh_catch_partial {V : Variant} {P : Prog} (hB : BodyOk V P) (hist : List RunIn)
+    (hNS : ∀ ri ∈ hist, ∀ n, ri.code.shallow n = false) (hCS : CatchStill V P {} hist) {st' : St} {rs : List Res}
+    (h : runHist V P {} hist = some (st', rs)) (i : Nat) (hi : i < hist.length) (fuel : Nat) (r' : Res)
+    (hf : fresh V P hist[i] fuel = some r') : rs[i]? = some r' := by
+  obtain ⟨hlen, hall⟩ := full_validity_catch_partial hB hist hNS
+    (invC_empty V P ⟨fun _ => 0, fun _ => false, fun _ => false⟩ ⟨fun _ => 0, fun _ => 0, fun _ => false⟩) hCS h
+  have hi' : i < rs.length := hlen ▸ hi
+  have hD := hall i hi hi'
+  have hm : hist[i] ∈ hist := List.getElem_mem hi
+  have hD' := fresh_den_catch hB hist[i] (hNS _ hm) hf
+  rw [List.getElem?_eq_getElem hi', den_det hD hD']
+
 /-! ### the theorems apply to every template program (what the driver runs, what the harness generates) -/
 
 theorem tableProg_bodyOk {V : Variant} (hS : V.simpleExprValid = true) (tbl : List (TH × Spec))
@@ -154,6 +239,26 @@ theorem refuted_catch :
 (so `full_validity` with `noCatchCache` is not vacuous on programs with `catch`) -/
 example : (runHist ⟨true, true, true⟩ (tableProg catchTbl) {} catchHist).map (·.2) = some [.ok (.int 0), .ok (.int 5)] := by
   decide
+
+/-- non-vacuity of `full_validity_catch_partial`: the same workflow executed twice without an edit in between - the
+recovery cached by the first execution is still justified at the start of the second -/
+def catchRun : RunIn := { code := code [], fs := fsConst 1, root := .call 0 (i 0), fuel := 20 }
+
+theorem catchRun_entry : (runOne .repaired (tableProg catchTbl) {} catchRun).map (fun x => x.1.catches) =
+    some [(⟨.call 1 (.lit (.int 0)), 0, ⟨2, 0⟩⟩, .call 2 (.lit (.exc 0)))] := by decide
+
+example : CatchStill .repaired (tableProg catchTbl) {} [catchRun, catchRun] := by
+  refine ⟨by intro ck ce hm; simp at hm, ?_⟩
+  intro st1 r u h
+  have h1 := catchRun_entry
+  rw [h] at h1
+  simp only [Option.map_some, Option.some.injEq] at h1
+  refine ⟨?_, fun _ _ _ _ => trivial⟩
+  intro ck ce hm hne
+  rw [h1] at hm
+  simp only [List.mem_singleton, Prod.mk.injEq] at hm
+  obtain ⟨rfl, rfl⟩ := hm
+  exact .callRaise (.lit _) (by decide)
 
 /-- t0(x) = t1(File(p0)) + 1;  t1(f) = content of f. -/
 def fileTbl : List (TH × Spec) := [(⟨0, 0⟩, .ret (.add (.call 1 (.file 0)) (.lit 1))), (⟨1, 0⟩, .ret .numarg)]
